@@ -335,7 +335,111 @@ def rfcCheck (doc : J) : String :=
     | _, _ => "bad:feature"
   | _ => "bad:document"
 
+/-! ### export histories: observe – update in place – observe again, on several live objects -/
+
+structure HState where
+  /-- the live shape objects -/
+  objs : List Src := []
+  /-- collection objects: member indices in the order fixed at construction (`none`: construction failed) -/
+  colls : List (Option (List Nat)) := []
+  /-- documents returned so far (`none` for a failed call) -/
+  docs : List (Option J) := []
+  /-- printed observations -/
+  obs : List String := []
+
+def natD : J → Except String Nat
+  | .num q => .ok q.num.toNat
+  | _ => bad
+
+def observe (st : HState) (r : Except String J) : HState :=
+  match r with
+  | .ok d => { st with docs := st.docs ++ [some d], obs := st.obs ++ [showJ d] }
+  | .error e => { st with docs := st.docs ++ [none], obs := st.obs ++ [e] }
+
+def startKey (objs : List Src) (i : Nat) : Int :=
+  match objs[i]? with
+  | some s => (match s.dt with | some t => t.start | none => 0)
+  | none => 0
+
+/-- a mutator applied to object `i`: in place, or (`inplace=False`) to a copy that becomes a new object -/
+def applyUpd (st : HState) (i : Nat) (inplace : Bool) (f : Src → Except String Src) : Except String HState := do
+  let s ← need st.objs[i]?
+  match f s with
+  | .ok s' =>
+      if inplace then pure { st with objs := st.objs.set i s' }
+      else pure { st with objs := st.objs ++ [s'] }
+  | .error e => pure { st with obs := st.obs ++ [e] }
+
+def stepRun (st : HState) (o : Obj) : Except String HState := do
+  let op ← strD (← fld o "op")
+  let inplace ← boolD (fldOr o "inplace" (.bool true))
+  if op = "export" then do
+    let s ← need st.objs[(← natD (← fld o "i"))]?
+    pure (observe st (toGeoJson rt s (← optsD o)))
+  else if op = "set_dt" then do
+    let dt ← dtD (fldOr o "dt" .null)
+    applyUpd st (← natD (← fld o "i")) inplace (fun s => .ok (s.setDt dt))
+  else if op = "strip_dt" then
+    applyUpd st (← natD (← fld o "i")) inplace (fun s => .ok s.stripDt)
+  else if op = "buffer_dt" then do
+    let b ← (match ← fld o "us" with | .num q => pure q.num | _ => bad)
+    applyUpd st (← natD (← fld o "i")) inplace (fun s => s.bufferDt b)
+  else if op = "set_property" then do
+    let key ← strD (← fld o "key")
+    let v ← fld o "val"
+    applyUpd st (← natD (← fld o "i")) inplace (fun s => .ok (s.setProperty key v))
+  else if op = "fork" then do
+    let s ← need st.objs[(← natD (← fld o "i"))]?
+    pure { st with objs := st.objs ++ [s] }
+  else if op = "mutdoc" then
+    -- the caller scribbles on a document it was given earlier: no shape may notice
+    pure st
+  else if op = "import" then do
+    let d ← need (← need st.docs[(← natD (← fld o "j"))]?)
+    let kind ← strD (← fld o "kind")
+    let r : Except String Shape := (do
+      if kind = "parse" then
+        match (← parseGeoJson rt d).1 with
+        | .shape s => pure s
+        | .coll _ => .error "ERR:Unmodelled"
+      else
+        match kindD kind with
+        | some k => do pure (← fromGeoJson rt k d).1
+        | none => .error "bad-op")
+    match r with
+    | .ok s => pure { st with objs := st.objs ++ [s.toSrc], obs := st.obs ++ ["imported"] }
+    | .error e => if e = "bad-op" then bad else pure { st with obs := st.obs ++ [e] }
+  else if op = "mkcoll" then do
+    let idxs ← mapE natD (← arrD (← fld o "is"))
+    let track ← boolD (fldOr o "track" (.bool false))
+    if track then
+      if idxs.all (fun i => match st.objs[i]? with | some s => s.dt.isSome | none => false) then
+        pure { st with colls := st.colls ++ [some (sortByStart (startKey st.objs) idxs)] }
+      else pure { st with colls := st.colls ++ [none], obs := st.obs ++ ["ERR:Value"] }
+    else pure { st with colls := st.colls ++ [some idxs] }
+  else if op = "cexport" then do
+    match ← need st.colls[(← natD (← fld o "c"))]? with
+    | none => pure (observe st (.error "ERR:NoColl"))
+    | some idxs => do
+        let shapes ← mapE (fun i => need st.objs[i]?) idxs
+        pure (observe st (collToGeoJson rt shapes (← optsD o)))
+  else bad
+
+def runHist (o : Obj) : Except String String := do
+  let objs ← mapE srcD (← arrD (fldOr o "objs" (.arr [])))
+  let steps ← mapE objD (← arrD (← fld o "steps"))
+  let st ← steps.foldlM stepRun ({ objs := objs } : HState)
+  -- RFC shape of every document handed out (features of a collection one by one)
+  let verdicts := st.docs.filterMap fun d => d.map fun doc =>
+    match (match doc with | .obj o => oget o "features" | _ => none) with
+    | some (.arr fs) => (fs.map rfcCheck).foldl (fun acc r => if acc = "ok" then r else acc) "ok"
+    | _ => rfcCheck doc
+  let rfc := verdicts.foldl (fun acc r => if acc = "ok" then r else acc) "ok"
+  -- documents are values here: an import cannot change them (`import_pure`)
+  pure ("ok " ++ " ; ".intercalate st.obs ++ " rfc=" ++ rfc ++ " docs=same")
+
 /-! ### the handler -/
+
 
 def importWith (o : Obj) : Except String (String × J) := do
   let doc ← fld o "doc"
@@ -393,6 +497,7 @@ def run (op : String) (o : Obj) : Except String String := do
     let want ← s.geom.polyForm opts.k
     pure ("ok " ++ showJ (shapeJ r.1) ++ " eq=" ++ showBool (decide (r.1.geom = want ∧ r.1.dt = s.dt))
       ++ " dt=" ++ showBool (decide (r.1.dt = s.dt)) ++ " props=" ++ showBool (showJ (.obj r.1.props) = showJ (.obj s.props)))
+  else if op = "hist" then runHist o
   else if op = "cexport" then do
     let shapes ← collSrcD o
     let doc ← collToGeoJson rt shapes (← optsD o)
